@@ -20,7 +20,7 @@ from odl.set.space import LinearSpaceElement
 from odl.space.weighting import (
     ArrayWeighting, ConstWeighting, CustomDist, CustomInner, CustomNorm,
     Weighting)
-from odl.util import indent, is_real_dtype, signature_string
+from odl.util import indent, signature_string
 from odl.util.ufuncs import ProductSpaceUfuncs
 
 __all__ = ('ProductSpace',)
@@ -1622,15 +1622,15 @@ class ProductSpaceArrayWeighting(ArrayWeighting):
                                       'exponent != 2 (got {})'
                                       ''.format(self.exponent))
 
+        # The component inner products are elements of the field, which
+        # need not be representable in the data type of the components
+        dtype = type(x1.space.field.element())
         inners = np.fromiter(
             (x1i.inner(x2i) for x1i, x2i in zip(x1, x2)),
-            dtype=x1[0].space.dtype, count=len(x1))
+            dtype=dtype, count=len(x1))
 
         inner = np.dot(inners, self.array)
-        if is_real_dtype(x1[0].dtype):
-            return float(inner)
-        else:
-            return complex(inner)
+        return dtype(inner)
 
     def norm(self, x):
         """Calculate the array-weighted norm of an element.
@@ -1730,9 +1730,11 @@ class ProductSpaceConstWeighting(ConstWeighting):
                                       'exponent != 2 (got {})'
                                       ''.format(self.exponent))
 
+        # The component inner products are elements of the field, which
+        # need not be representable in the data type of the components
         inners = np.fromiter(
             (x1i.inner(x2i) for x1i, x2i in zip(x1, x2)),
-            dtype=x1[0].space.dtype, count=len(x1))
+            dtype=type(x1.space.field.element()), count=len(x1))
 
         inner = self.const * np.sum(inners)
         return x1.space.field.element(inner)
